@@ -744,7 +744,11 @@ def rw_R8(text, site, log):
             if pc == '':
                 continue
             if pc == '{}':
-                parts.append('VPiece::Dec((%s) as u64)' % args[ai]); ai += 1
+                a = args[ai]; ai += 1
+                # `Display` of a reference to an integer is `Display` of the integer (std blanket impl for &T)
+                if re.search(r'\.(deref|as_ref)\(\)$', a) and not a.lstrip().startswith('*'):
+                    a = '*' + a
+                parts.append('VPiece::Dec((%s) as u64)' % a)
             elif pc == '{:04x}':
                 parts.append('VPiece::Hex4((%s) as u32)' % args[ai]); ai += 1
             elif pc.startswith('{'):
@@ -759,6 +763,54 @@ def rw_R8(text, site, log):
         text = text[:m.start()] + rep + rest[len('.as_bytes()'):]
         cnt += 1
     log.add('R8(format!(..).as_bytes() -> v_format(pieces).as_slice())', site, cnt)
+    return text
+
+
+def rw_R32_typed_format(text, kinds, site, log):
+    """format!(LIT, a, b, ..) whose arguments are the repo's own Display types (opt-in, argument kinds given by the
+    contract): -> v_format_string(&[VPiece::Lit(..), VPiece::Lit(v_disp_<kind>(&(a)).as_slice()), ..]).  The v_disp_*
+    stand-ins (prelude/display.rs) state what each Display impl writes."""
+    m = re.search(r'format!\(', text)
+    if not m:
+        raise LostAnchor('%s: no format! for R32' % site)
+    op = m.end() - 1
+    cl = balanced_end(text, op)
+    inner = text[op + 1:cl]
+    toks = tokenize(inner)
+    lit = toks[0]
+    if lit.kind != 'str':
+        raise WeaveError('R32: format! without literal at ' + site)
+    args = []
+    depth = 0
+    lastc = None
+    for t in toks[1:]:
+        if t.kind == 'punct' and t.text in '([{':
+            depth += 1
+        elif t.kind == 'punct' and t.text in ')]}':
+            depth -= 1
+        elif t.text == ',' and depth == 0:
+            if lastc is not None:
+                args.append(inner[lastc:t.start].strip())
+            lastc = t.end
+    if lastc is not None and inner[lastc:].strip():
+        args.append(inner[lastc:].strip())
+    fmt = decode_bytestr(lit.text).decode('utf-8')
+    pieces = re.split(r'(\{[^}]*\})', fmt)
+    holes = [pc for pc in pieces if pc.startswith('{')]
+    if any(h != '{}' for h in holes) or len(holes) != len(args) or len(args) != len(kinds):
+        raise LostAnchor('%s: format! has %d holes / %d arguments, contract lists %d kinds (R32)' % (site, len(holes), len(args), len(kinds)))
+    parts = []
+    ai = 0
+    for pc in pieces:
+        if pc == '':
+            continue
+        if pc == '{}':
+            parts.append('VPiece::Lit(v_disp_%s(%s).as_slice())' % (kinds[ai], args[ai])); ai += 1
+        else:
+            bs = pc.encode('utf-8')
+            parts.append('VPiece::Lit(&[' + ', '.join('0x%02xu8' % b for b in bs) + '])')
+    text = text[:m.start()] + 'v_format_string(&[%s])' % ', '.join(parts) + text[cl + 1:]
+    log.add('R32(format! over the repo\'s Display types -> v_format_string(pieces))', site, 1)
     return text
 
 
@@ -1065,6 +1117,11 @@ class Unit:
         text = vis_rewrite(text)
         if self.expand_macros:
             text = expand_macro_calls(text, self.expand_macros, site, self.log)
+        if c:
+            for r in c.rewrites:
+                m32 = re.match(r'R32\(([\w,]+)\)$', r)
+                if m32:
+                    text = rw_R32_typed_format(text, m32.group(1).split(','), site, self.log)
         for rw in GLOBAL_REWRITES:
             text = rw(text, site, self.log)
         text = rw_R9(text, c, site, self.log)
@@ -1088,6 +1145,8 @@ class Unit:
                     continue
                 if r == 'R28':
                     text, n28 = re.subn(r'unsafe\s*\{\s*String::from_utf8_unchecked\((\w+)\)\s*\}', r'v_string_from_utf8_unchecked(\1)', text)
+                    text, n28b = re.subn(r'unsafe\s*\{\s*std::str::from_utf8_unchecked\(([^{}]*?)\)\s*\}', r'v_str_from_utf8_unchecked(\1)', text)
+                    n28 += n28b
                     self.log.add('R28(String::from_utf8_unchecked -> trusted stand-in)', site, n28)
                     continue
                 if r == 'R23':
@@ -1108,6 +1167,8 @@ class Unit:
                                          r'%s.as_mut_slice()[\1].copy_from_slice(' % v, text)
                     n29 += n29b
                     self.log.add('R29(&mut VEC[range] -> &mut VEC.as_mut_slice()[range])', site, n29)
+                    continue
+                if r.startswith('R32('):
                     continue
                 m17 = re.match(r'R17\((\w+)\)$', r)
                 if m17:
@@ -1154,7 +1215,7 @@ class Unit:
             # pre/postcondition alone (no loop contracts, no hints).  Otherwise the loss is reported (undecided).
             c2 = Contract(c.file, c.path, ret=c.ret, requires=c.requires, ensures=c.ensures, decreases=c.decreases,
                           ghostparams=c.ghostparams, ghostargs=c.ghostargs, attrs=c.attrs,
-                          rewrites=[r for r in c.rewrites if r in ('R5', 'R20', 'R21', 'R23', 'R28', 'R30') or r.startswith('R17') or r.startswith('R29')])
+                          rewrites=[r for r in c.rewrites if r in ('R5', 'R20', 'R21', 'R23', 'R28', 'R30') or r.startswith('R17') or r.startswith('R29') or r.startswith('R32(')])
             c2.ats = [a for a in c.ats if a[0] == 'fn_start' and 'let ghost' not in a[2]]
             text = self.apply_rewrites(raw, site, c2)
             _, loops = find_loops(split_fn(text)[1])
